@@ -442,6 +442,9 @@ func (g *gen) safeValue(depth int) slip.Object {
 		return h
 	default:
 		g.hist("kind:lambda")
+		if l := g.genLambda(false); l != nil && g.r.Chance(80) {
+			return l
+		}
 		srcs := []string{"(lambda (x) (1+ x))", "(lambda (x y) (list x y))", "(lambda () 3)", "(lambda (x &optional (y 2)) (+ x y))",
 			"(lambda (a &rest r) (cons a r))", "(lambda (x) (let ((y (* x x))) (if (> y 10) (list 'big y) (list 'small y))))"}
 		return common.EvalIn(slip.NewScope(), common.Pick(g.r, srcs)).Value
@@ -541,6 +544,9 @@ func (g *gen) value(depth int, symOK bool) slip.Object {
 }
 
 func (g *gen) lambda() slip.Object {
+	if l := g.genLambda(g.r.Chance(20)); l != nil && g.r.Chance(70) {
+		return l
+	}
 	srcs := []string{
 		"(lambda (x) (1+ x))",
 		"(lambda (x y) (list x y))",
